@@ -16,5 +16,5 @@ for r in rows:
     old[re.match(r'\| (C\d+-\d+) \|',r).group(1)]=r
 def key(n):
     a,b=n[1:].split('-'); return (int(a),int(b))
-foot=["","Rows marked *missed*: C12-6, C20-6, C01-16, C03-15, C03-18 and C09-19 are detected by the checks of the properties they actually break (C05/C18, C07, C10, C14, C14, C18/C12/C05)","rather than by the one they were written against (C01-16 needs the rebalancer to re-weight on ratings, C03-15 and C03-18 more distinct sources than the capacity:","both outside what C01 / C03 state; C09-19 keeps every access under the mutex: no data race, no lost counter update); C19-3 and C19-8 concern peer addresses without a port or without an IP,","which C19 as stated does not quantify over (see each meta.json and DESIGN.md 5.2-5.10).","","C01-13 and C09-1 depend on an interleaving inside a very short window; in a parallel sweep that saturates the machine (seedsweep_wt.sh -j 5 next to other","work) they were missed once and detected when re-run singly; their rows are from the single re-run. C03-19 (concurrent first requests of a fresh source) is caught by","C03's conc part only in some runs at the quick tier (detected when first processed, missed in the sweeps that wrote its row)."]
+foot=["","Rows marked *missed*: C12-6, C20-6, C01-16, C03-15, C03-18 and C09-19 are detected by the checks of the properties they actually break (C05/C18, C07, C10, C14, C14, C18/C12/C05)","rather than by the one they were written against (C01-16 needs the rebalancer to re-weight on ratings, C03-15 and C03-18 more distinct sources than the capacity:","both outside what C01 / C03 state; C09-19 keeps every access under the mutex: no data race, no lost counter update); C19-3 and C19-8 concern peer addresses without a port or without an IP,","which C19 as stated does not quantify over (see each meta.json and DESIGN.md 5.2-5.10).","","C01-13 and C09-1 depend on an interleaving inside a very short window; in a parallel sweep that saturates the machine (seedsweep_wt.sh -j 5 next to other","work) they were missed once and detected when re-run singly; their rows are from the single re-run."]
 open(path,'w').write('\n'.join(head+[old[k] for k in sorted(old,key=key)]+foot)+'\n')
